@@ -8,6 +8,9 @@ import (
 )
 
 func (r *Repo) Oldest(_ context.Context) (model.Transaction, error) {
+	r.m.RLock()
+	defer r.m.RUnlock()
+
 	it := r.storage.Iter()
 	if !it.Next() {
 		return model.Transaction{}, fs_db.ErrTxNotFound
